@@ -31,7 +31,11 @@ func (a RelayedAddress) AddTo(m *stun.Message) error {
 
 // GetFrom decodes XOR-PEER-ADDRESS from message.
 func (a *RelayedAddress) GetFrom(m *stun.Message) error {
-	return (*stun.XORMappedAddress)(a).GetFromAs(m, stun.AttrXORRelayedAddress)
+	if err := (*stun.XORMappedAddress)(a).GetFromAs(m, stun.AttrXORRelayedAddress); err != nil {
+		return err
+	}
+
+	return checkXORAddressSize(m, stun.AttrXORRelayedAddress, a.IP)
 }
 
 // XORRelayedAddress implements XOR-RELAYED-ADDRESS attribute.
